@@ -17,7 +17,7 @@ use std::path::Path;
 use std::sync::{Arc, Mutex};
 use std::time::Duration;
 
-pub const ZONES: [&str; 16] = [
+pub const ZONES: [&str; 17] = [
     "UTC0",
     "<+0545>-5:45",
     "<-0330>3:30",
@@ -26,6 +26,8 @@ pub const ZONES: [&str; 16] = [
     "AEST-10AEDT,M10.1.0,M4.1.0/3",
     "<+1030>-10:30<+11>-11,M10.1.0,M4.1.0",
     "<-03>3<-02>,M10.3.0/0,M2.3.0/0",
+    // local mean time: the offset is not a whole number of minutes (+0:19:32, Amsterdam before 1937)
+    "LMT-0:19:32",
     // named zones (historical irregularities); used by the thorough tier when /usr/share/zoneinfo exists
     "America/New_York",
     "Europe/Berlin",
